@@ -13,6 +13,7 @@ import (
 	"errors"
 	"fmt"
 	"io"
+	"log/slog"
 	"net/http"
 	"time"
 
@@ -96,6 +97,18 @@ func (w *respWriter) SetWriteDeadline(t time.Time) error { return nil }
 type Server struct {
 	Handler          http.Handler
 	StreamDispatcher func(FrameType, *vquic.Stream, error) (handled bool, err error)
+	// the remaining configuration fields of the real http3.Server, so that code which sets them
+	// still builds against the fake; only MaxHeaderBytes has an effect here
+	Addr               string
+	Port               int
+	TLSConfig          *tls.Config
+	QUICConfig         *vquic.Config
+	EnableDatagrams    bool
+	MaxHeaderBytes     int
+	AdditionalSettings map[uint64]uint64
+	IdleTimeout        time.Duration
+	ConnContext        func(ctx context.Context, c *vquic.Conn) context.Context
+	Logger             *slog.Logger
 	// Served counts request streams handled by Handler; Declined counts non-request streams
 	// that the dispatcher did not take (they are reset, as a plain HTTP/3 server would do).
 	Served, Declined int
@@ -167,6 +180,29 @@ func (s *Server) handleRequestStream(conn *vquic.Conn, str *vquic.Stream) {
 	}
 	resp := &Response{Header: http.Header{}}
 	w := &respWriter{r: resp}
+	// the real server answers a HEADERS frame longer than MaxHeaderBytes (default 1 MiB) itself
+	// with 431 and never calls the handler. Approximated by the uncompressed size of the field
+	// section (names + values + pseudo-headers), which is what QPACK can only shrink.
+	limit := s.MaxHeaderBytes
+	if limit <= 0 {
+		limit = http.DefaultMaxHeaderBytes
+	}
+	size := len(req.Method) + len(req.Host) + 16
+	if req.URL != nil {
+		size += len(req.URL.RequestURI())
+	}
+	for k, vs := range req.Header {
+		for _, v := range vs {
+			size += len(k) + len(v)
+		}
+	}
+	if size > limit {
+		resp.Status, resp.WroteHeader = http.StatusRequestHeaderFieldsTooLarge, true
+		ex.resp = resp
+		ex.done = true
+		_ = str.Close()
+		return
+	}
 	h := s.Handler
 	if h == nil {
 		h = http.DefaultServeMux
